@@ -20,7 +20,7 @@ func init() {
 			"(R1) in the registering function the limit test on the un-narrowed count dominates every store into the type→id map, the id→type list, the used mask and the id list, and nothing else inserts into the map; this establishes Count() ∈ [0, maskTotalBits]; " +
 			"(R2) registry growth on a locked world: after the registering call every path either learned that no new id was created or passes a lock test; the locked branch calls the unregister role and panics; the storage is extended only on the unlocked continuation; every field written by registration is restored by un-registration or listed with a reason; " +
 			"(R3) interval analysis: every non-constant index into a fixed-size array in the mask and registry code is inside the array at the documented maximum, and every narrowing conversion of a computed id to uint8 is loss-free; " +
-			"(R4) resources: the slot is tested before it is stored or cleared, and slots are indexed by the registry id. (R5) grow-before-index: where a slice is re-allocated under the guard that its length does not exceed an index and is then indexed with it (the neighbour maps of the archetype graph), the new length provably exceeds the index. (R6) an id is not derived from a container's length after an element was removed from it: on every path, an index into a field that is computed from len(F) read after a `delete` on F (directly or in a callee) is reported - the roll-back of a registration must address the removed entry, not the one before it. Not decided: use of the highest ids in queries (mask arithmetic); stability across arbitrary histories beyond R1.",
+			"(R4) resources: the slot is tested before it is stored or cleared, and slots are indexed by the registry id. (R5) grow-before-index: where a slice is re-allocated under the guard that its length does not exceed an index and is then indexed with it (the neighbour maps of the archetype graph), the new length provably exceeds the index. (R6) an id is not derived from a container's length after an element was removed from it: on every path, an index into a field that is computed from len(F) read after a `delete` on F (directly or in a callee) is reported - the roll-back of a registration must address the removed entry, not the one before it. (R7 = C16/R1) the reset chain leaves the component and resource registries in place: no reset function replaces a whole value that contains a registry documented to survive (ids stay what they were). Not decided: use of the highest ids in queries (mask arithmetic); stability across arbitrary histories beyond R1.",
 		TrustedBase: []string{"go/types, go/cfg", "interval arithmetic over Go integer types", "Count() ≤ limit follows from R1"},
 		Rules: []Rule{
 			{ID: "C18/R1", Run: c18r1, Min: 1},
@@ -29,6 +29,7 @@ func init() {
 			{ID: "C18/R4", Run: c18r4, Min: 1},
 			{ID: "C18/R5", Run: c18r5, Min: 1},
 			{ID: "C18/R6", Run: c18r6, Min: 1},
+			{ID: "C16/R1", Run: c16r1, Min: 1},
 		},
 	})
 }
